@@ -370,7 +370,9 @@ func TestVerifC10Paths(t *testing.T) {
 
 		res := map[string]c10Result{}
 		msgs := map[string]string{}
+		var states []string
 		run := func(state string, reqs map[string]project.RequirementConfig, resolver *Resolver) {
+			states = append(states, state)
 			root, err := loadRoot(reqs)
 			if err != nil {
 				res[state], msgs[state] = c10Result{St: "err", M: [][2]string{}}, "the root configuration does not load: "+err.Error()
@@ -400,11 +402,6 @@ func TestVerifC10Paths(t *testing.T) {
 			os.RemoveAll(dir(n))
 		}
 
-		var states []string
-		for k := range res {
-			states = append(states, k)
-		}
-		sort.Strings(states)
 		for _, k := range states {
 			if !vcSame(res[k], refRes) {
 				out.emit(map[string]any{"t": "ORACLE", "name": "paths:buildlist-vs-reference", "case": caseID, "state": k,
